@@ -6,4 +6,5 @@ CONSTANTS
   GenFaults = {"ok", "exception", "trunc", "dotdot", "samepath"}
   ByeFaults = {"ok", "noreply"}
   NamesGoodbyeFailure = TRUE
+  DetachesStdout = TRUE
 CHECK_DEADLOCK FALSE
